@@ -1,6 +1,13 @@
 //! Host functions registered in every session (C02, C20), and the object-level API operations (C20).
 
-use crate::{canon_string, escape, unescape, Session};
+use crate::{canon, escape, unescape, Session};
+
+/// canonical form with at most 7 levels of nested elements (lists built through the API may be cyclic)
+fn canon_string(o: &TulispObject) -> String {
+    let mut s = String::new();
+    canon(o, &mut s, 394);
+    s
+}
 use tulisp::{destruct_bind, list, lists, tulisp_fn, Error, ErrorKind, TulispContext, TulispObject};
 
 pub fn register_host_fns(ctx: &mut TulispContext) {
